@@ -69,7 +69,8 @@ def fam_bytes(nmax=8):
                                Field(3, 'optional', ('struct', LEAFD, True))])
     S5 = StructDef('By_unk', [Field(1, 'default', S('i8')), Field(300, 'required', S('i16'))], has_unknown=True)
     S6 = StructDef('By_enum', [Field(1, 'default', S('enum')), Field(2, 'default', S('double')), Field(3, 'default', ('map', S('enum'), S('double')))])
-    return [{'sd': s, 'kinds': ['bytes'], 'params': {'bytes': ns}} for s in (S1, S2, S3, S4, S5, S6)]
+    # (By_scalars at N = 12 exceeded the 200000-path budget in a measured run: capped at 11)
+    return [{'sd': s, 'kinds': ['bytes'], 'params': {'bytes': [x for x in ns if not (s.name == 'By_scalars' and x['N'] > 11)]}} for s in (S1, S2, S3, S4, S5, S6)]
 
 def pair(w, t, orders=3, reach=None, hop=False):
     d = {'w': w, 't': t, 'kinds': ['decmsg'] + (['hop'] if hop else []), 'params': {'decmsg': [{'orders': orders}]}}
@@ -161,6 +162,8 @@ def fam_default():
     p1, p2 = pair(ow, ot, 2), pair(ow2, ot2, 2)
     for p in (p1, p2):
         p['params'] = {'decmsg': [{'orders': 2, 'plain': 1}]}   # no trailing bytes / pre-fill variants: the shape space is large already
+    if TIER == 'thorough':
+        p1['params'] = {'decmsg': [{'orders': 2, 'plain': 1, 'S': 1, 'L': 1}]}   # (S = L = 2 exceeded the path budget in a measured run)
     out.append(p1)
     out.append(p2)
     out.append({'sd': ot, 'kinds': ['codec'], 'params': small})
@@ -180,7 +183,10 @@ def fam_nocopy():
                           Field(4, 'default', S('string')), Field(5, 'default', S('binary')), Field(6, 'optional', S('string'), ptr=True)])
     b = StructDef('NcB', [Field(7, 'default', ('struct', inner, True)), Field(8, 'default', ('list', ('struct', inner, False))), Field(300, 'default', ('list', S('string')))])
     sm = {'codec': [{'S': 2, 'L': 1, 'M': 1, 'D': 1}]}
-    return [pair(a, a, 3), pair(b, b, 2), {'sd': a, 'kinds': ['codec'], 'params': sm}, {'sd': b, 'kinds': ['codec'], 'params': sm}]
+    pb = pair(b, b, 2)
+    if TIER == 'thorough':
+        pb['params'] = {'decmsg': [{'orders': 2, 'L': 1}]}   # (L = 2 exceeded the path budget in a measured run)
+    return [pair(a, a, 3), pb, {'sd': a, 'kinds': ['codec'], 'params': sm}, {'sd': b, 'kinds': ['codec'], 'params': sm}]
 
 def fam_unknown():
     u1 = StructDef('UkA', [Field(1, 'default', S('i32')), Field(2, 'optional', S('string'), ptr=True)], has_unknown=True)
@@ -246,7 +252,8 @@ def fam_hist():
     t = StructDef('HsT', [Field(1, 'required', S('i64')), Field(64, 'required', S('i8')), Field(2, 'default', ('map', S('i8'), leafv)),
                           Field(900, 'required', S('i16'))], has_unknown=True)
     ps = [{'orders': 1}]
-    out = [{'p': h1, 'w': w, 't': t, 'params': ps, 'reach': ['end', 'ok', 'missing']}]
+    # (thorough: L = M = 2 for the three-type history exceeded the path budget in a measured run)
+    out = [{'p': h1, 'w': w, 't': t, 'params': [{'orders': 1, 'L': 1, 'M': 1}] if TIER == 'thorough' else ps, 'reach': ['end', 'ok', 'missing']}]
     # presence-set clearing: required id sets whose largest / smallest member sits on every kind of word position
     for n, ids in enumerate([[64], [0], [1, 128], [63, 64, 65], [127], [1024, 1], [65534], [2, 192, 193]]):
         wv = StructDef('HsRW%d' % n, [Field(i, 'optional', S('i8'), ptr=True, name='F%d' % i) for i in ids])
@@ -297,7 +304,9 @@ def fam_mutmsg(full=False):
         add(sd, sd, [0, 1, 2] if (full or k == 0) else [0])
     # a reader that does not know the writer's fields: everything goes through the unknown-field skipper
     for k, sd in enumerate(types[:5]):
-        add(sd, unk, [0, 1, 2] if full else [0])
+        # (thorough: the byte/word corruption variants of MuC and MuD through the skipper did not finish within 3000 s in
+        # a measured run and are left at truncation only: registered bounds are bounds that ran clean)
+        add(sd, unk, [0, 1, 2] if (full and sd.name not in ('MuC', 'MuD')) else [0])
     return out
 
 def mk_dprec():
